@@ -2,7 +2,9 @@ package main
 
 import (
 	"fmt"
+	"go/token"
 	"go/types"
+	"strings"
 
 	"golang.org/x/tools/go/ssa"
 )
@@ -99,4 +101,130 @@ func ruleRawRead(c *Ctx) {
 	}
 	c.Sites += n
 	c.minInstances("RWManager.ReadAt call sites", n, 4)
+}
+
+// ---------------------------------------------------------------------------
+// R-RWBOUNDS (C09, C19): what the segment scan loops tolerate as "end of data" is io.EOF, a zero
+// header, and any error once the offset has reached the capacity. FileIO reports a read that
+// starts inside the file and is cut short by its end as a short read / io.EOF. So an RWManager
+// implementation must not refuse (with one of the module's own errors) a ReadAt that merely
+// extends past the end: a bounds test that involves the LENGTH OF THE BUFFER together with the
+// offset makes the 42-byte header probe at the first free offset fail whenever fewer than 42
+// free bytes remain, and Open fails on a directory written by successful calls.
+
+func ruleRWBounds(c *Ctx) {
+	rwT := c.P.Named("", "RWManager")
+	if rwT == nil {
+		c.undecided("RWManager", "interface", "", "type not found")
+		return
+	}
+	iface := rwT.Underlying().(*types.Interface)
+	n := 0
+	for _, f := range c.P.SrcFuncs {
+		if !c.P.inModule(f) || f.Name() != "ReadAt" || f.Signature.Recv() == nil {
+			continue
+		}
+		rn := namedOf(f.Signature.Recv().Type())
+		if rn == nil || !types.Implements(types.NewPointer(rn), iface) {
+			continue
+		}
+		n++
+		c.touch(f)
+		// does it return a module error (not io.EOF, not the error of an underlying call)?
+		ownErr := false
+		ei := errResultIndex(f)
+		for _, r := range returnsOf(f) {
+			for _, v := range resolve(r.Results[ei]) {
+				if ld, ok := v.(*ssa.UnOp); ok {
+					if g, ok := ld.X.(*ssa.Global); ok && g.Pkg != nil && g.Pkg.Pkg.Path() == modPath {
+						ownErr = true
+					}
+				}
+				if call, ok := v.(*ssa.Call); ok {
+					if cal := call.Call.StaticCallee(); cal != nil && (cal.String() == "errors.New" || cal.String() == "fmt.Errorf") {
+						ownErr = true
+					}
+				}
+			}
+		}
+		// comparisons that combine an integer parameter with len(of a slice parameter), in f and in the bool helpers it calls
+		subjects := []*ssa.Function{f}
+		bind := map[*ssa.Parameter]ssa.Value{} // helper parameter -> argument in f
+		calls(f, func(ci ssa.CallInstruction) {
+			cal := ci.Common().StaticCallee()
+			if cal != nil && c.P.inModule(cal) && cal.Blocks != nil && cal.Signature.Results().Len() == 1 {
+				if b, ok := cal.Signature.Results().At(0).Type().Underlying().(*types.Basic); ok && b.Kind() == types.Bool {
+					subjects = append(subjects, cal)
+					for i, a := range ci.Common().Args {
+						if i < len(cal.Params) {
+							bind[cal.Params[i]] = a
+						}
+					}
+				}
+			}
+		})
+		var offender ssa.Instruction
+		for _, g := range subjects {
+			var sym func(v ssa.Value) string
+			sym = func(v ssa.Value) string {
+				v = resolve1(v)
+				if p, ok := v.(*ssa.Parameter); ok && p.Parent() != f {
+					if a, ok := bind[p]; ok {
+						a = resolve1(stripConv(a))
+						if call, ok := a.(*ssa.Call); ok {
+							if bi, ok := call.Call.Value.(*ssa.Builtin); ok && bi.Name() == "len" {
+								return "len(" + sym(call.Call.Args[0]) + ")"
+							}
+						}
+						return sym(a)
+					}
+				}
+				if p, ok := v.(*ssa.Parameter); ok {
+					if _, isSlice := p.Type().Underlying().(*types.Slice); isSlice {
+						return "bufparam"
+					}
+					if isIntegerType(p.Type()) {
+						return "intparam:" + p.Name()
+					}
+				}
+				return pathOf(v)
+			}
+			instrs(g, func(in ssa.Instruction) {
+				b, ok := in.(*ssa.BinOp)
+				if !ok {
+					return
+				}
+				switch b.Op {
+				case token.LSS, token.LEQ, token.GTR, token.GEQ:
+				default:
+					return
+				}
+				d := linAdd(linOf(b.X, sym), linOf(b.Y, sym), -1)
+				hasInt, hasBuf := false, false
+				for k, v := range d.terms {
+					if v == 0 {
+						continue
+					}
+					if strings.HasPrefix(k, "intparam:") {
+						hasInt = true
+					}
+					if strings.Contains(k, "len(bufparam)") {
+						hasBuf = true
+					}
+				}
+				if hasInt && hasBuf && offender == nil {
+					offender = in
+				}
+			})
+		}
+		bad := ownErr && offender != nil
+		pos := c.P.pos(f.Pos())
+		if offender != nil {
+			pos = c.P.ipos(offender)
+		}
+		c.check(!bad, fnName(f), "a read cut short by the end of the segment is not refused with a module error", pos, "",
+			"this ReadAt compares offset+len(buffer) with the size of the region and returns one of the module's own errors: a header probe that starts inside the segment but extends past its end (fewer free bytes than a header) is refused, which no scan loop treats as end of data, so Open fails on an almost-full segment")
+	}
+	c.Sites += n
+	c.minInstances("RWManager.ReadAt implementations", n, 2)
 }
